@@ -524,6 +524,9 @@ class EnvView:
         return k in self._env
 
 
+PREFIX_LOCAL = object()       # marker: local defined by the dropped prefix of a block contract
+
+
 class Interp:
     def __init__(self, ctx: Ctx, registry, lib):
         self.ctx = ctx
@@ -566,7 +569,12 @@ class Interp:
                     raise Unsupported(f'block contract: no top-level statement assigns `{want}`')
                 self.ctx.ghost['entry_cut'] = {'function': fi.qualname, 'verified_from_line': body[k].lineno,
                                                'unverified_lines': [body[0].lineno, body[k].lineno - 1] if k else None}
-                frame.env.update(cut['state'](self.ctx, frame.env))
+                described = cut['state'](self.ctx, frame.env)
+                for st_ in body[:k]:
+                    for nd in ast.walk(st_):
+                        if isinstance(nd, ast.Name) and isinstance(nd.ctx, ast.Store) and nd.id not in described:
+                            frame.env[nd.id] = PREFIX_LOCAL        # (parameters rebound by the prefix included: their value is unknown)
+                frame.env.update(described)
                 body = body[k:]
             try:
                 self.exec_block(body, frame)
@@ -1048,7 +1056,12 @@ class Interp:
     def expr_Name(self, e, fr):
         n = e.id
         if n in fr.env:
-            return fr.env[n]
+            v = fr.env[n]
+            if v is PREFIX_LOCAL:
+                # block contract: the name is assigned by the dropped (unverified) prefix and the assumed mid-condition says nothing
+                # about it -- the suffix cannot be executed (not a NameError of the code)
+                raise Unsupported(f'block contract: `{n}` is defined in the unverified prefix and not described by the mid-condition')
+            return v
         return self.global_name(n, fr)
 
     def global_name(self, n, fr):
